@@ -412,3 +412,19 @@ def run(ck, prog):
     _run_pre_stride(ck, prog)
     from sa import stride
     stride.run_rule(ck, prog, set(DIMENSION_FILES))
+
+
+
+# ------------------------------------------------------------------ the reference backend's flattening follows the logical order (C03's storage-map rule)
+_run_pre_storagemap = run
+
+
+def run(ck, prog):
+    _run_pre_storagemap(ck, prog)
+    # 'flattening and reshaping follow the logical row-major order regardless of the backend's memory layout': for the built-in
+    # type this is C03's rule that no method hands out / reuses the column-major buffer as a flattened or re-shaped view
+    from props import C03
+    C03.storage_map(ck, prog)
+
+
+EXPLANATION += " The built-in type's storage-map rule (C03) is evaluated here too: no method hands out the column-major buffer as a flattened view."
